@@ -334,7 +334,12 @@ func oracleMatch(c matchCase, o matchObs) []core.Failure {
 			}
 		}
 		if !found {
-			fs = append(fs, fail("matcher-glob-from-request", "request path %q tries %v matched %q, not one of the literal candidates %q", c.path, c.tries, P, want))
+			class := "matcher-glob-from-request"
+			if strings.Contains(c.path, "\\") {
+				// globSafeRepl escapes * [ ? but not the escape character itself
+				class = "matcher-glob-from-request-via-backslash"
+			}
+			fs = append(fs, fail(class, "request path %q tries %v matched %q, not one of the literal candidates %q", c.path, c.tries, P, want))
 		}
 	}
 	if !c.fallback {
